@@ -2,7 +2,8 @@
 
 Functions under contract (real code, re-read every run):
   _param_resolution.py :: _default_for, resolve_runtime_value
-  nodes.py :: _DataNode._get_processor_parameters, _DataNode._fetch_parameter_value, _DataNode._process,
+  nodes.py :: _DataNode.__init__, _ContextProcessorNode.__init__ (the node keeps exactly the configured parameters),
+              _DataNode._get_processor_parameters, _DataNode._fetch_parameter_value, _DataNode._process,
               _DataNode._process_single_item_with_context,
               _ProbeContextInjectorNode._process_single_item_with_context,
               _ContextProcessorNode._process_single_item_with_context / _fetch_parameter_value
@@ -13,6 +14,9 @@ Functions under contract (real code, re-read every run):
   factory.py :: _context_renamer_factory.<locals>._process_logic, _context_deleter_factory.<locals>._process_logic
   data_processors.py :: DataOperation._notify_context_update
   payload_processors.py :: _PayloadProcessor.process  (entry normalisation: None payload / None data / plain-dict context)
+  data_slicer_factory.py :: _SlicingDataProcessorFactory.create.<locals>.SlicingDataOperator.process / SlicingDataProbe.process
+  io_operation_factory.py :: the four _process_logic_method bodies of create_data_operation (data/payload source, data/payload sink)
+  orchestrator.py :: SemantivaOrchestrator.execute  (the node loop as a fold: harness and invariant shared with specs/C06.py; nodes abstract)
 Spec functions: Resolve (config > context > default), Logic_p (uninterpreted processor logic).
 Bounded tier (labelled bounded, never counted as proved): replay/c01_bounded.py runs generated pipelines (32 node configurations incl.
 slicers, a sweep, sources, a sink, context-writing operations, rename/delete/template) through the real Pipeline in ONE process and
@@ -713,8 +717,404 @@ def h_entry(spec):
     E.run_function(spec, "_PayloadProcessor.process", body)
 
 
-TASKS = [h_default_for, h_resolve, h_get_params, h_data_node_process, h_probe_node, h_validating_observer, h_rename_delete, h_dataop_notify, h_entry]
-FACTORIES = {"h_default_for": MetaSpec, "h_data_node_process": NodeSpec, "h_probe_node": NodeSpec, "h_dataop_notify": DataOpSpec, "h_entry": EntrySpec}
+SLICER = "semantiva/data_processors/data_slicer_factory.py"
+
+
+class SlicerSpec(LSpec):
+    """generated slicer classes: the wrapped processor's process() is the abstract Logic (may fail on any element), the collection
+    type's from_list([]) an empty list the slicer appends to, iteration of the input collection = its element list"""
+
+    def __init__(self):
+        super().__init__()
+        self.obj_methods = dict(self.obj_methods, from_list=self.m_from_list)
+        self.skolem_goals = True
+        self.assumptions |= {"iterating a DataCollectionType yields its elements in order (DataCollectionType.__iter__); from_list([]) is an empty collection whose append() adds at the end"}
+
+    def m_from_list(self, I, recv, args, kwargs, star):
+        return I.st.new_list(Sq(fresh("empty", core.VArr), z3.IntVal(0)))
+
+    def obj_attr(self, I, v, name):
+        if name in ("data_type_override", "input_data_type_override"):
+            return V.obj(z3.Int("CollectionType"))
+        return super().obj_attr(I, v, name)
+
+    def opaque_super(self, I, sup, c, name):
+        if name == "process":
+            return O.HBound(sup.selfv, O.HExt("c01.wrapped_processor.process"))
+        return super().opaque_super(I, sup, c, name)
+
+    def ext_call(self, I, dotted, args, kwargs, star):
+        if dotted == "c01.wrapped_processor.process":
+            st = I.st
+            me, item = args[0], I.lift(args[1])
+            o = V.oid(I.lift(me))
+            if star is None:
+                star = st.new_dict()
+            # the mapping handed on is a copy (**kwargs): compared key by key with the resolved parameters, then Logic is taken at the
+            # resolved parameters (Logic depends on the content of the mapping only)
+            k = fresh("any_parameter_name")
+            self.oblige(I, "slicer/the-wrapped-processor-gets-exactly-the-resolved-parameters",
+                        z3.And(z3.Select(ddom(st.h, star), k) == z3.Select(self.DOM0, k),
+                               z3.Implies(z3.Select(self.DOM0, k), z3.Select(dval(st.h, star), k) == z3.Select(self.VAL0, k))), hints=[k])
+            dom, val = self.DOM0, self.VAL0
+            st.ghost["calls"] = st.ghost.get("calls", z3.IntVal(0)) + 1
+            st.ghost["last_item"] = item
+            if st.decide(LogicFails(o, item, dom, val), "logic-fails"):
+                e = O.HExc(LogicExc(o, item, dom, val), origin=("logic", "process"))
+                st.ghost["logic_exc"] = e
+                raise PyRaise(e)
+            r = LogicOut(o, item, dom, val)
+            st.assume(z3.Implies(V.is_ref(r), V.id(r) <= 0))
+            return r
+        return super().ext_call(I, dotted, args, kwargs, star)
+
+
+def h_slicer(spec):
+    """slice:<processor>:<collection>: the generated process() maps the wrapped processor over the collection element-wise, in order,
+    with the same resolved parameters for every element; the first failing element's exception propagates and no later element is
+    processed (operation: the result collection holds Logic(x_i) at position i; probe: the list of probe results likewise)."""
+    quals = {"operation": "_SlicingDataProcessorFactory.create.<locals>.SlicingDataOperator.process",
+             "probe": "_SlicingDataProcessorFactory.create.<locals>.SlicingDataProbe.process"}
+    for q in quals.values():
+        fn_info(spec, SLICER, q)
+
+    def mk(which):
+        def body(I):
+            st = I.st
+            coll = in_list(I, "collection_elements")
+            n = z3.Select(st.h.llen, V.id(coll))
+            st.assume(n >= 0)
+            me = V.obj(z3.Int("slicer_instance"))
+            kwargs = in_dict(I, "resolved_parameters")
+            h0 = st.h.copy()
+            arr0 = z3.Select(h0.larr, V.id(coll))
+            o = V.oid(me)
+            dom, val = ddom(h0, kwargs), dval(h0, kwargs)
+            spec.DOM0, spec.VAL0 = dom, val
+            node, chain = source.find_def(SLICER, quals[which])
+            mod = source.load_module(SLICER)
+            base = O.abstract_class("WrappedProcessor")
+            owner = O.ClassInfo(("c01-slicer", which, node.lineno), chain[-1].name, module=mod, node=chain[-1], bases=[base])
+            env = Env(mod)
+            env.vars.update({"processor_class": base, "input_data_collection_type": V.obj(z3.Int("CollectionType"))})
+            f = O.HFunc(node, mod, env, quals[which], owner)
+            out_var = "processed_data" if which == "operation" else "probed_results"
+            j = z3.Int("j!sl")
+
+            def inv(c):
+                res = c.st.list_sq(c.var(out_var))
+                return z3.And(res.n == c.i, c.st.ghost.get("calls", z3.IntVal(0)) == c.i,
+                              z3.ForAll([j], z3.Implies(z3.And(j >= 0, j < c.i), z3.And(z3.Not(LogicFails(o, z3.Select(arr0, j), dom, val)),
+                                                                                        res.at(j) == LogicOut(o, z3.Select(arr0, j), dom, val)))))
+            spec.loops.clear()
+            spec.loop(SLICER, quals[which], 1, LoopSpec(inv, modifies_heap=True, frame_except=lambda c: [c.var(out_var)], ghost=("calls",)))
+            st.ghost["calls"] = z3.IntVal(0)
+            try:
+                r = I.call_function(f, [me, coll], {}, kwargs)
+                out = ("return", r)
+            except PyRaise as pr:
+                out = ("raise", pr.exc)
+            calls = st.ghost["calls"]
+            if out[0] == "return":
+                res = st.list_sq(out[1])
+                spec.oblige(I, f"slicer[{which}]/one-result-per-element", z3.And(res.n == n, calls == n))
+                spec.oblige(I, f"slicer[{which}]/result[i]=Logic(element[i],resolved-parameters)-in-order",
+                            z3.ForAll([j], z3.Implies(z3.And(j >= 0, j < n), res.at(j) == LogicOut(o, z3.Select(arr0, j), dom, val))))
+                spec.oblige(I, f"slicer[{which}]/returns-only-if-no-element-fails",
+                            z3.ForAll([j], z3.Implies(z3.And(j >= 0, j < n), z3.Not(LogicFails(o, z3.Select(arr0, j), dom, val)))))
+            else:
+                k = calls - 1
+                spec.oblige(I, f"slicer[{which}]/raises-only-the-wrapped-processor's-exception", z3.BoolVal(out[1] is st.ghost.get("logic_exc")))
+                spec.oblige(I, f"slicer[{which}]/fails-at-the-first-failing-element,no-later-element-processed",
+                            z3.And(k >= 0, k < n, st.ghost["last_item"] == z3.Select(arr0, k), LogicFails(o, z3.Select(arr0, k), dom, val),
+                                   z3.ForAll([j], z3.Implies(z3.And(j >= 0, j < k), z3.Not(LogicFails(o, z3.Select(arr0, j), dom, val))))))
+            spec.oblige(I, f"slicer[{which}]/input-collection-and-parameters-untouched", frame_eq(h0, st.h, 0))
+        return body
+    E.run_function(spec, "slicer[operation].process", mk("operation"))
+    E.run_function(spec, "slicer[probe].process", mk("probe"))
+
+
+IOF = "semantiva/data_processors/io_operation_factory.py"
+IoOut = z3.Function("IoOut", I_, core.VSet, core.VMap, V)            # what the wrapped source returns for these parameters
+IoFails = z3.Function("IoFails", I_, V, core.VSet, core.VMap, core.B)
+IoExc = z3.Function("IoExc", I_, V, core.VSet, core.VMap, I_)
+
+
+class IoSpec(LSpec):
+    """role-preserving adapters: the wrapped data-IO class is abstract (its get_data / _get_payload / send_data / _send_payload may fail
+    with any exception); a payload source's payload carries a mapping as context"""
+
+    def __init__(self):
+        super().__init__()
+        self.skolem_goals = True
+        self.obj_methods = dict(self.obj_methods, get_data=self.m_io("get_data"), _get_payload=self.m_io("_get_payload"),
+                                send_data=self.m_io("send_data"), _send_payload=self.m_io("_send_payload"),
+                                _notify_context_update=self.m_notify, warning=self.m_noop)
+        self.assumptions |= {"the wrapped data-IO object is abstract: IoOut / IoFails of (class, data, parameters); the context a payload source returns is a mapping iterated in its own order"}
+
+    def m_noop(self, I, recv, args, kwargs, star):
+        return NONE
+
+    def call_value(self, I, f, args, kwargs, star):
+        if I.lift(f).eq(self.IO_CLASS):
+            return V.obj(z3.Int("data_io_instance"))
+        return super().call_value(I, f, args, kwargs, star)
+
+    def instantiate_override(self, I, ci, args, kwargs, star):
+        if ci.name == "Logger":
+            return V.obj(z3.Int("logger"))
+        if ci.name == "ContextType" and not args and not kwargs:
+            return V.obj(z3.Int("fresh_empty_context"))
+        return MISSING
+
+    def obj_attr(self, I, v, name):
+        if name == "__name__":
+            return vstr(z3.String("class_name"))
+        if name == "context_observer":
+            return self.OBSERVER
+        if name == "observer_context":
+            return V.obj(z3.Int("observer_context"))
+        return super().obj_attr(I, v, name)
+
+    def m_io(self, meth):
+        def call(I, recv, args, kwargs, star):
+            st = I.st
+            if star is None:
+                star = st.new_dict()
+                for k_, v_ in kwargs.items():
+                    models.set_item(I, star, vstr(k_), v_)
+            o = z3.Int("data_io_class_id")
+            subject = I.lift(args[0]) if args else NONE
+            st.ghost["io_calls"] = st.ghost.get("io_calls", []) + [(meth, subject, star, st.h.copy())]
+            dom, val = ddom(st.h, star), dval(st.h, star)
+            if st.decide(IoFails(o, subject, dom, val), "io-fails"):
+                e = O.HExc(IoExc(o, subject, dom, val), origin=("io", meth))
+                st.ghost["io_exc"] = e
+                raise PyRaise(e)
+            if meth == "get_data":
+                return IoOut(o, dom, val)
+            if meth == "_get_payload":
+                return self.PAYLOAD_OUT
+            return NONE
+        return call
+
+    def m_notify(self, I, recv, args, kwargs, star):
+        st = I.st
+        U = self.UPDATES
+        st.set_list(U, st.list_sq(U).append(vtup([I.lift(args[0]), I.lift(args[1])])))
+        return NONE
+
+
+def _io_defs():
+    import ast as _ast
+    mod = source.load_module(IOF)
+    outer = None
+    for n in _ast.walk(mod.tree):
+        if isinstance(n, _ast.FunctionDef) and n.name == "create_data_operation":
+            outer = n
+    defs = sorted([n for n in _ast.walk(outer) if isinstance(n, _ast.FunctionDef) and n.name == "_process_logic_method"], key=lambda n: n.lineno) if outer else []
+    return mod, defs
+
+
+def h_io_adapters(spec):
+    """the DataOperation adapters generated for sources and sinks: a data source ignores its input and returns what the wrapped
+    source produces for exactly the resolved parameters (plus the observer context when the source accepts one); a payload source
+    returns the payload's data and notifies every (key, value) of the payload's context once, in order; sinks hand the data (a data
+    sink: the very object, a payload sink: a payload holding it) and exactly the resolved parameters to the wrapped sink once and
+    return the same data object."""
+    mod, defs = _io_defs()
+    roles = ["data-source", "payload-source", "data-sink", "payload-sink"]
+    if len(defs) != 4:
+        spec.undecided.append(("io-adapters", f"OUTSIDE-SUBSET: expected the four adapter bodies of create_data_operation, found {len(defs)}"))
+        return
+    import ast as _ast, hashlib as _hl
+    for d_, r_ in zip(defs, roles):
+        q_ = f"_IOOperationFactory.create_data_operation.<locals>._process_logic_method[{r_}]"
+        spec.functions[(IOF, q_)] = {"file": IOF, "function": q_, "lines": [d_.lineno, d_.end_lineno],
+                                     "sha256": _hl.sha256((_ast.get_source_segment(mod.text, d_) or "").encode()).hexdigest()}
+
+    def mk(role, node):
+        def body(I):
+            st = I.st
+            spec.IO_CLASS = V.obj(z3.Int("DataIoClass"))
+            has_obs = st.choose(2, "node has a context observer?") == 0
+            spec.OBSERVER = V.obj(z3.Int("observer")) if has_obs else NONE
+            me = V.obj(z3.Int("adapter_instance"))
+            data = in_val(I, "input_data")
+            kwargs = in_dict(I, "resolved_parameters")
+            spec.UPDATES = in_list(I, "UPDATES")
+            st.assume(z3.Select(st.h.llen, V.id(spec.UPDATES)) == 0)
+            pctx = in_dict(I, "payload_context")
+            st.assume(z3.Select(st.h.dlen, V.id(pctx)) >= 0)
+            pl_ci = cls_of(I, "semantiva/pipeline/payload.py", "Payload")
+            spec.PAYLOAD_OUT = in_inst(I, "payload_out", pl_ci, {"data": in_val(I, "payload_data"), "context": pctx})
+            h0 = st.h.copy()
+            dom0, val0 = ddom(h0, kwargs), dval(h0, kwargs)
+            env = Env(mod)
+            accepts = st.choose(2, "source accepts a context?") == 0 if role == "data-source" else False
+            env.vars.update({"data_io_class": spec.IO_CLASS, "accepts_context": vbool(z3.BoolVal(accepts))})
+            f = O.HFunc(node, mod, env, f"create_data_operation.<locals>._process_logic_method[{role}]", None)
+            j = z3.Int("j!io")
+            if role == "payload-source":
+                ordk, cv = z3.Select(h0.dord, V.id(pctx)), dval(h0, pctx)
+
+                def inv(c):
+                    U = c.st.list_sq(spec.UPDATES)
+                    return z3.And(U.n == c.i, z3.ForAll([j], z3.Implies(z3.And(j >= 0, j < c.i),
+                                                                         U.at(j) == vtup([z3.Select(ordk, j), z3.Select(cv, z3.Select(ordk, j))]))))
+                spec.loops.clear()
+                spec.loop(IOF, f.qual, 1, LoopSpec(inv, modifies_heap=True, frame_except=lambda c: [spec.UPDATES]))
+            try:
+                r = I.call_function(f, [me, data], {}, kwargs)
+                out = ("return", r)
+            except PyRaise as pr:
+                out = ("raise", pr.exc)
+            calls = st.ghost.get("io_calls", [])
+            want_meth = {"data-source": "get_data", "payload-source": "_get_payload", "data-sink": "send_data", "payload-sink": "_send_payload"}[role]
+            spec.oblige(I, f"io[{role}]/the-wrapped-component-is-called-exactly-once", z3.BoolVal(len(calls) == 1 and calls[0][0] == want_meth))
+            if len(calls) != 1:
+                return
+            meth, subject, star, hc = calls[0]
+            k = fresh("any_parameter_name")
+            same = z3.And(z3.Select(ddom(hc, star), k) == z3.Select(dom0, k), z3.Implies(z3.Select(dom0, k), z3.Select(dval(hc, star), k) == z3.Select(val0, k)))
+            if role == "data-source" and accepts and has_obs:
+                # the observer context is supplied under `context` unless the resolved parameters already hold one
+                ck = vstr("context")
+                same = z3.And(z3.Implies(k != ck, same), z3.Select(ddom(hc, star), ck),
+                              z3.Implies(z3.Select(dom0, ck), z3.Select(dval(hc, star), ck) == z3.Select(val0, ck)),
+                              z3.Implies(z3.Not(z3.Select(dom0, ck)), z3.Select(dval(hc, star), ck) == V.obj(z3.Int("observer_context"))))
+            spec.oblige(I, f"io[{role}]/the-wrapped-component-gets-exactly-the-resolved-parameters", same, hints=[k, vstr("context")])
+            if out[0] == "raise":
+                spec.oblige(I, f"io[{role}]/raises-only-the-wrapped-component's-exception", z3.BoolVal(out[1] is st.ghost.get("io_exc")))
+                return
+            res = I.lift(out[1])
+            o = z3.Int("data_io_class_id")
+            if role == "data-source":
+                spec.oblige(I, "io[data-source]/returns-what-the-source-produces(input-data-ignored)", res == IoOut(o, ddom(hc, star), dval(hc, star)))
+            elif role == "payload-source":
+                U = st.list_sq(spec.UPDATES)
+                np_ = z3.Select(h0.dlen, V.id(pctx))
+                spec.oblige(I, "io[payload-source]/returns-the-payload's-data", res == fld(h0, spec.PAYLOAD_OUT, "data"))
+                spec.oblige(I, "io[payload-source]/every-context-entry-of-the-payload-notified-once-in-order",
+                            z3.And(U.n == np_, z3.ForAll([j], z3.Implies(z3.And(j >= 0, j < np_), U.at(j) == vtup([z3.Select(ordk, j), z3.Select(cv, z3.Select(ordk, j))])))))
+            elif role == "data-sink":
+                spec.oblige(I, "io[data-sink]/the-sink-receives-the-data-object", subject == data)
+                spec.oblige(I, "io[data-sink]/data-passes-through-unchanged", res == data)
+            else:
+                spec.oblige(I, "io[payload-sink]/the-sink-receives-a-payload-holding-the-data", z3.And(V.is_ref(subject), fld(hc, subject, "data") == data))
+                spec.oblige(I, "io[payload-sink]/data-passes-through-unchanged", res == data)
+            if role != "payload-source":
+                spec.oblige(I, f"io[{role}]/no-context-write", st.list_sq(spec.UPDATES).n == 0)
+        return body
+    for role, node in zip(roles, defs):
+        E.run_function(spec, f"io-adapter[{role}]", mk(role, node))
+
+
+class InitSpec(LSpec):
+    """node construction: the processor class is abstract (instantiating it gives an opaque processor), the base-class initialiser
+    only sets the logger, classify_unknown_config_params is abstract (no issue / one issue)"""
+
+    def call_override(self, I, f, args, kwargs, star):
+        fn = f.func if isinstance(f, O.HBound) else f
+        if isinstance(fn, O.HFunc) and fn.node.name == "__init__" and fn.qual.split(".")[0] in ("_PayloadProcessor", "_SemantivaComponent", "_PipelineNode"):
+            me = f.selfv if isinstance(f, O.HBound) else args[0]
+            I.setattr(me, "logger", V.obj(z3.Int("logger")))
+            return NONE
+        if isinstance(fn, O.HFunc) and fn.node.name == "classify_unknown_config_params":
+            st = I.st
+            st.ghost["classified"] = (kwargs.get("processor_cls"), kwargs.get("processor_config"), st.h.copy())
+            if st.choose(2, "unknown configuration parameters?") == 0:
+                st.ghost["issues"] = False
+                return st.new_list(Sq(fresh("none", core.VArr), z3.IntVal(0)))
+            st.ghost["issues"] = True
+            d = st.new_dict()
+            models.set_item(I, d, vstr("name"), vstr(z3.String("unknown_parameter")))
+            lst = st.new_list(Sq(fresh("one", core.VArr), z3.IntVal(0)))
+            st.set_list(lst, st.list_sq(lst).append(d))
+            return lst
+        return super().call_override(I, f, args, kwargs, star)
+
+    def call_value(self, I, f, args, kwargs, star):
+        if I.lift(f).eq(self.PROC_CLASS):
+            I.st.ghost["instantiated"] = I.st.ghost.get("instantiated", 0) + 1
+            return V.obj(z3.Int("processor_instance"))
+        return super().call_value(I, f, args, kwargs, star)
+
+    def obj_attr(self, I, v, name):
+        if name in ("__name__", "__module__"):
+            return vstr(z3.String("a_" + name.strip("_")))
+        if name == "__class__":
+            return V.obj(z3.Int("class_of_the_processor_instance"))
+        return super().obj_attr(I, v, name)
+
+
+def h_node_init(spec):
+    """node construction keeps the configuration: after _DataNode.__init__ / _ContextProcessorNode.__init__ return, the node's
+    processor_config holds exactly the configured parameters (nothing dropped, added or changed; empty when none were given), the
+    processor class was instantiated exactly once, the caller's mapping is untouched; construction fails exactly when the
+    configuration names a parameter the processor does not know."""
+    for cname in ("_DataNode", "_ContextProcessorNode"):
+        fn_info(spec, NODES, f"{cname}.__init__")
+
+    def mk(cname):
+        def body(I):
+            st = I.st
+            ci = cls_of(I, NODES, cname)
+            me = in_inst(I, "node", ci, {})
+            spec.PROC_CLASS = V.obj(z3.Int("ProcessorClass"))
+            given = st.choose(2, "configuration given?") == 0
+            cfg = in_dict(I, "processor_config") if given else NONE
+            h0 = st.h.copy()
+            _, f = E.method_of(I, NODES, cname, "__init__")
+            err_mod = source.load_module("semantiva/exceptions/pipeline_exceptions.py")
+            inv_err = I.class_of_node(err_mod, err_mod.defs["InvalidNodeParameterError"])
+            out = E.execute(I, f, [me, spec.PROC_CLASS, cfg, V.obj(z3.Int("logger_arg"))])
+            h = st.h
+            spec.oblige(I, f"init[{cname}]/the-processor-class-is-instantiated-exactly-once", z3.BoolVal(st.ghost.get("instantiated", 0) == 1))
+            spec.oblige(I, f"init[{cname}]/the-caller's-configuration-is-untouched", frame_eq(h0, h, 0, [me]))
+            if out[0] == "return":
+                spec.oblige(I, f"init[{cname}]/constructed-only-if-every-configured-name-is-known", z3.BoolVal(st.ghost.get("issues") is False))
+                pc = fld(h, me, "processor_config")
+                k = fresh("any_parameter_name")
+                if given:
+                    goal = z3.And(V.is_ref(pc), z3.Select(ddom(h, pc), k) == z3.Select(ddom(h0, cfg), k),
+                                  z3.Implies(z3.Select(ddom(h0, cfg), k), z3.Select(dval(h, pc), k) == z3.Select(dval(h0, cfg), k)))
+                else:
+                    goal = z3.And(V.is_ref(pc), z3.Not(z3.Select(ddom(h, pc), k)))
+                spec.oblige(I, f"init[{cname}]/the-node-keeps-exactly-the-configured-parameters", goal, hints=[k])
+                cl = st.ghost.get("classified")
+                if cl is not None and given:
+                    cdict = I.lift(cl[1])
+                    spec.oblige(I, f"init[{cname}]/the-configuration-that-was-validated-is-the-one-kept",
+                                z3.And(z3.Select(ddom(cl[2], cdict), k) == z3.Select(ddom(h0, cfg), k),
+                                       z3.Implies(z3.Select(ddom(h0, cfg), k), z3.Select(dval(cl[2], cdict), k) == z3.Select(dval(h0, cfg), k))), hints=[k])
+                spec.oblige(I, f"init[{cname}]/processor=the-instance-just-created", fld(h, me, "processor") == V.obj(z3.Int("processor_instance")))
+            else:
+                spec.oblige(I, f"init[{cname}]/construction-fails-only-for-an-unknown-parameter(InvalidNodeParameterError)",
+                            z3.And(z3.BoolVal(st.ghost.get("issues") is True), exc_is(out[1], inv_err)))
+        return body
+    for cname in ("_DataNode", "_ContextProcessorNode"):
+        E.run_function(spec, f"{cname}.__init__", mk(cname))
+
+
+def h_execute_fold(spec):
+    """SemantivaOrchestrator.execute, without a trace driver, for an arbitrary number of abstract nodes: the run returns the fold of
+    the node semantics in declaration order (FoldData / FoldCtx, defined by recursion over the node list), every node ran exactly
+    once in order, and when node k raises it was given the fold of its predecessors and no later node ran.  The harness, its node
+    model and its loop invariant are those of specs/C06.py (which also runs the traced variant)."""
+    from . import C06
+    C06.h_execute(spec)(False).__call__     # (fails early if the harness was renamed)
+    E.run_function(spec, "execute[fold]", C06.h_execute(spec)(False), max_paths=4000)
+
+
+def _exec_spec():
+    from . import C06
+    return C06.Spec()
+
+
+TASKS = [h_default_for, h_resolve, h_get_params, h_data_node_process, h_probe_node, h_validating_observer, h_rename_delete, h_dataop_notify, h_entry, h_execute_fold, h_slicer, h_io_adapters, h_node_init]
+FACTORIES = {"h_default_for": MetaSpec, "h_data_node_process": NodeSpec, "h_probe_node": NodeSpec, "h_dataop_notify": DataOpSpec, "h_entry": EntrySpec,
+             "h_execute_fold": _exec_spec, "h_slicer": SlicerSpec, "h_io_adapters": IoSpec, "h_node_init": InitSpec}
 
 
 def factory():
@@ -758,7 +1158,17 @@ def replay(ob):
     res, proc = report.native_json(script, {"obligation": ob.name})
     payload["native"] = res
     payload["stderr"] = (proc.stderr or "")[-400:]
-    return bool(res and res.get("violates")), payload
+    if res and res.get("violates"):
+        return True, payload
+    # second native stage: whole pipelines against the reference interpreter (slicers, the node loop, composition)
+    if "bounded" not in _NATIVE:
+        _NATIVE["bounded"], _ = report.native_json(os.path.join(report.ROOT, "replay", "c01_bounded.py"), {"tier": "quick", "seed": 0}, timeout=900)
+    fails = (_NATIVE["bounded"] or {}).get("failures", [])
+    payload["native_pipelines"] = {"failures": fails[:3]}
+    return bool(fails), payload
+
+
+_NATIVE = {}
 
 
 if __name__ == "__main__":
